@@ -334,7 +334,7 @@ namespace awkward {
       return std::make_shared<ListOffsetArray64>(identities,
                                                  parameters_,
                                                  offsets,
-                                                 content_);
+                                                 content_.get()->getitem_range_nowrap(0, len * size_));
     }
   }
 
